@@ -76,6 +76,102 @@ fn check(ctx: &mut Ctx, h: &History) -> Result<(), String> {
     Ok(())
 }
 
+// ------------------------------------------------------------------ assertions on records the history engine does not produce
+
+/// A short sequence on one authenticator whose store records are replaced from outside between assertions (re-import,
+/// restore, key rotation: same credential id, another key pair), and assertions from another RP's site whose allow list
+/// names a held credential (a store outside the lookup contract hands it out: whether it may be used is C05's question,
+/// what the assertion then carries is this statement's).
+#[derive(Clone, Debug, serde::Serialize, serde::Deserialize, PartialEq, Eq, Hash)]
+pub struct Records {
+    /// 0 reference store, 1 MemoryStore
+    pub store: u8,
+    pub counter: bool,
+    /// site of the two credentials
+    pub site: u8,
+    /// (credential 0/1, replace its record by one with this key seed first, ask from this other site instead, uv requirement)
+    pub steps: Vec<(u8, Option<u8>, Option<u8>, u8)>,
+}
+
+fn records_strategy() -> impl Strategy<Value = Records> {
+    (0u8..2, any::<bool>(), any::<u8>(), proptest::collection::vec((0u8..2, proptest::option::weighted(0.4, any::<u8>()), proptest::option::weighted(0.25, any::<u8>()), any::<u8>()), 1..7))
+        .prop_map(|(store, counter, site, steps)| Records { store, counter, site, steps })
+}
+
+pub fn check_records(ctx: &mut Ctx, c: &Records) -> Result<(), String> {
+    use crate::ceremony::{AllowSel, AuthOp, CdMode, IdRef, ModelCred, SITES};
+    use crate::model::rpid::{HProvider, ProviderKind};
+    use crate::model::util::{make_passkey, snap};
+    use crate::rt::{block_on, RefStore, ScriptedUv, UvScript};
+    use passkey_authenticator::MemoryStore;
+    use passkey_client::{Client, DefaultClientData};
+    ctx.eval();
+    ctx.nontrivial(c);
+    let home = c.site as usize % SITES.len();
+    let ids: [Vec<u8>; 2] = [b"c03-records-credential-0".to_vec(), b"c03-records-credential-1!".to_vec()];
+    let mk = |k: usize, seed: u64| make_passkey(7000 + seed * 2 + k as u64, SITES[home].effective, &ids[k], Some(format!("records-user-{k}").as_bytes()), c.counter.then_some(3), None);
+    let model_of = |k: usize, pk: &passkey_types::Passkey| {
+        let s = snap(pk);
+        ModelCred { rp: SITES[home].effective.to_string(), id: ids[k].clone(), x: s.x.unwrap(), y: s.y.unwrap(), user_handle: s.user_handle.clone(), counter: s.counter, assertions: 0, started_near_max: false }
+    };
+    let first = [mk(0, 0), mk(1, 0)];
+    let mut model = vec![model_of(0, &first[0]), model_of(1, &first[1])];
+    fn go<S: cm::StoreAccess>(ctx: &mut Ctx, c: &Records, store: S, home: usize, model: &mut Vec<ModelCred>, mk: &dyn Fn(usize, u64) -> passkey_types::Passkey, model_of: &dyn Fn(usize, &passkey_types::Passkey) -> ModelCred, replace: &dyn Fn(&mut S, passkey_types::Passkey)) -> Result<(), String> {
+        let uv = ScriptedUv::new(UvScript::verified());
+        let auth = crate::cer::build_authenticator(store, uv, &crate::cer::AuthCfg { counter: c.counter, ..Default::default() });
+        let mut client = Client::new_with_custom_tld_provider(auth, HProvider::new(ProviderKind::Default)).allows_insecure_localhost(true);
+        for (n, (k, rekey, other, uvreq)) in c.steps.iter().enumerate() {
+            let k = *k as usize % 2;
+            if let Some(seed) = rekey {
+                let pk = mk(k, 1 + *seed as u64);
+                model[k] = model_of(k, &pk);
+                replace(client.authenticator_mut().store_mut(), pk);
+                ctx.class("record replaced from outside (same id, another key pair)");
+            }
+            let site_i = match other {
+                Some(o) => *o as usize % SITES.len(),
+                None => home,
+            };
+            let site = &SITES[site_i];
+            let foreign = site.effective != SITES[home].effective;
+            let op = AuthOp { site: site_i, challenge: format!("records challenge {n}").into_bytes(), allow: AllowSel::Ids(vec![IdRef::Known(k as u16, true)]), cd: CdMode::Default, uv: *uvreq, prf: None };
+            let req = crate::cer::request_options(site.rp, &op.challenge, Some(vec![crate::cer::descriptor(&model[k].id)]), crate::cer::uv_req(op.uv), None);
+            match block_on(client.authenticate(site.origin(), req, DefaultClientData)) {
+                Ok(res) => {
+                    // rpIdHash, client data, signature under the key now registered for the id, user handle
+                    let mi = cm::verify_assertion_opts(&res, site, &op, model, !foreign).map_err(|e| format!("step #{n}{}: {e}", if foreign { " (asked from another RP's site; the store handed the credential out)" } else { "" }))?;
+                    if mi != k {
+                        return Err(format!("step #{n}: another credential than the one named was used"));
+                    }
+                    ctx.class(if foreign { "assertion from another RP's site with a listed credential (binding judged, eligibility is C05's)" } else if rekey.is_some() { "assertion right after the record was replaced" } else { "assertion on a record as held" });
+                }
+                Err(e) => {
+                    // the statement constrains what a successful assertion carries, not when one succeeds
+                    let _ = e;
+                    ctx.class(if foreign { "foreign-site request refused" } else { "home-site request refused (not judged)" });
+                }
+            }
+        }
+        Ok(())
+    }
+    if c.store % 2 == 0 {
+        let store = RefStore::with(Disc::Full, first.to_vec());
+        go(ctx, c, store, home, &mut model, &mk, &model_of, &|s: &mut RefStore, pk| {
+            let mut g = s.0.lock().unwrap();
+            g.creds.retain(|p| p.credential_id != pk.credential_id);
+            g.creds.push(pk);
+        })
+    } else {
+        let mut store = MemoryStore::new();
+        for p in first.iter() {
+            store.insert(p.credential_id.to_vec(), p.clone());
+        }
+        go(ctx, c, store, home, &mut model, &mk, &model_of, &|s: &mut MemoryStore, pk| {
+            s.insert(pk.credential_id.to_vec(), pk);
+        })
+    }
+}
+
 pub fn run(ctx: &mut Ctx) {
     ctx.rule = "interleaved histories (up to 12 operations) of registrations and authentications over 2-4 (origin, RP ID) sites and several users, pre-loaded credentials, allow lists (absent, empty, known ids, unknown ids, ids of another RP, unknown descriptor types), challenges, client-data modes and UV requirements; multi-RP histories on the reference store (sites include names below 'localhost'; some pre-loaded credentials are held for mixed-case RP IDs that only a CTAP2-level caller can name), single-RP histories also on MemoryStore and the single-slot Option store; about one operation in eleven is an assertion made directly at the CTAP2 level — with and without the up / uv options, the validation step reporting exactly what was asked — and judged the same way (rpIdHash, signature, user handle). Non-trivial = an authentication that reached the authenticator (success or credential-not-found); distinct by (store, preload, position, request).".into();
     ctx.assumptions = vec![
@@ -88,13 +184,24 @@ pub fn run(ctx: &mut Ctx) {
         Search::Pass => {}
         Search::Fail(h, msg) => ctx.violation("histories", json!(h), &msg),
     }
+    if ctx.violations.is_empty() {
+        let n = ctx.tier.pick(1_500u32, 200_000u32);
+        match search(ctx, 31, n, records_strategy(), check_records) {
+            Search::Pass => {}
+            Search::Fail(c, msg) => ctx.violation("records", json!(c), &msg),
+        }
+    }
     if ctx.violations.is_empty() && ctx.class_count("authentication/success") == 0 {
         eprintln!("C03: no authentication succeeded - vacuous run ({:?})", ctx.extra.get("last_unexpected_error"));
         std::process::exit(2);
     }
 }
 
-pub fn replay(ctx: &mut Ctx, _stage: &str, case: &Value) -> Result<(), String> {
+pub fn replay(ctx: &mut Ctx, stage: &str, case: &Value) -> Result<(), String> {
+    if stage == "records" {
+        let c: Records = serde_json::from_value(case.clone()).map_err(|e| format!("bad case: {e}"))?;
+        return check_records(ctx, &c);
+    }
     let h: History = serde_json::from_value(case.clone()).map_err(|e| format!("bad case: {e}"))?;
     check(ctx, &h)
 }
